@@ -25,3 +25,5 @@ type (
 )
 
 type ERRFLOW = core.ERRFLOW
+
+type NOREACH = core.NOREACH
